@@ -539,4 +539,27 @@ def addrEqR (a b : RAddr) : Bool :=
 /-- `_tuple()` with `settings.route_aware` off -/
 def hashKeyR (a : RAddr) : Nat × Option Nat × Option Bytes × Option Unit := hashKey a.base
 
+/-! ## dictionary keys of both kinds (ints and addresses in one table, as `DeviceInfoCache.cache`)
+
+A Python dict treats `x` and `y` as one key iff `hash(x) == hash(y)` and `x == y`.
+`Address.__eq__` coerces a non-address argument (`arg = Address(arg)`), so
+`Address(5) == 5` is true: what keeps the int 5 and station 5 apart in a table
+is the hash alone.  The hash of the unchanged code is `hash(_tuple())`, a tuple
+hash; modelled as the abstract injective key `PyKey`. -/
+
+/-- what a dict key is worth: an int hashes as itself, an address as its `_tuple()` -/
+inductive PyKey
+  | int (n : Int)
+  | addr (k : Nat × Option Nat × Option Bytes × Option Unit)
+deriving DecidableEq, Repr
+
+def keyOfAddr (a : Addr) : PyKey := .addr (hashKey a)
+def keyOfInt (n : Int) : PyKey := .int n
+
+/-- `address == n` for an int `n`: `Address(n)` first (may raise), then `__eq__` -/
+def addrEqInt (a : Addr) (n : Int) : Except Err Bool :=
+  match ofInt n with
+  | .ok b => .ok (addrEq a b)
+  | .error e => .error e
+
 end BacVerif.Addr
